@@ -110,11 +110,32 @@ def round_trip(res, st, label, sd, v, cfgkey, case):
     return form, flags
 
 
-def check_compressed(res, st, v, proto, mcl, codec, case):
+_SERDES = {}
+
+
+def shared(kind, proto, mcl=None, codec=None):
+    """serde objects live as long as the client that owns them: one object per configuration serves every value of the run
+    (anything a serde keeps between two calls shows up as a dependence on the previous value)"""
+    from pymemcache import serde
+    k = (kind, proto, mcl, codec)
+    if k not in _SERDES:
+        if kind == "pickle":
+            _SERDES[k] = serde.PickleSerde(pickle_version=proto)
+        else:
+            comp, decomp = CODECS[codec]
+            _SERDES[k] = serde.CompressedSerde(compress=comp, decompress=decomp, serde=shared("pickle", proto), min_compress_len=mcl)
+    return _SERDES[k]
+
+
+def check_compressed(res, st, v, proto, mcl, codec, case, fresh=False):
     from pymemcache import serde
     comp, decomp = CODECS[codec]
-    inner = serde.PickleSerde(pickle_version=proto)
-    sd = serde.CompressedSerde(compress=comp, decompress=decomp, serde=inner, min_compress_len=mcl)
+    if fresh:
+        inner = serde.PickleSerde(pickle_version=proto)
+        sd = serde.CompressedSerde(compress=comp, decompress=decomp, serde=inner, min_compress_len=mcl)
+    else:
+        inner = shared("pickle", proto)
+        sd = shared("compressed", proto, mcl, codec)
     label = "CompressedSerde"
     r = round_trip(res, st, label, sd, v, None, case)
     if r is None:
@@ -175,7 +196,7 @@ def run_value(res, st, v, rng, tier, full=False):
     protos = range(0, 6) if full else [rng.randrange(0, 6), 5]
     for proto in protos:
         case = ("pickle", proto, None, None, repr(v)[:300])
-        sd = serde.PickleSerde(pickle_version=proto)
+        sd = shared("pickle", proto) if res.evaluations % 3 else serde.PickleSerde(pickle_version=proto)
         round_trip(res, st, "PickleSerde", sd, v, None, ("pickle", proto, v) if _literal(v) else case)
         res.case(("pickle", proto, valuegen.shape(v)) if nontrivial(v) else None,
                  {"serde": "PickleSerde(protocol=%d)" % proto, "value": _sh(v)} if res.evaluations % 1777 == 0 else None)
@@ -184,7 +205,7 @@ def run_value(res, st, v, rng, tier, full=False):
     for mcl, codec in combos:
         proto = rng.randrange(0, 6)
         case = ("compressed", proto, mcl, codec, v) if _literal(v) else ("compressed", proto, mcl, codec, repr(v)[:300])
-        check_compressed(res, st, v, proto, mcl, codec, case)
+        check_compressed(res, st, v, proto, mcl, codec, case, fresh=(res.evaluations % 3 == 0))
         res.case(("compressed", mcl, codec, valuegen.shape(v)) if nontrivial(v) else None,
                  {"serde": "CompressedSerde(%s, min_compress_len=%d, pickle %d)" % (codec, mcl, proto), "value": _sh(v)}
                  if res.evaluations % 1777 == 0 else None)
